@@ -13,7 +13,7 @@ VERIF = os.path.dirname(os.path.dirname(os.path.abspath(__file__)))
 REPO = os.environ.get("VERIF_REPO", "/repo")
 LEAN = os.path.join(VERIF, "lean")
 FMODEL = os.path.join(LEAN, ".lake", "build", "bin", "fmodel")
-NCPU = os.cpu_count() or 4
+NCPU = int(os.environ.get("VERIF_JOBS", "0")) or (os.cpu_count() or 4)
 
 ISA_FLAGS = {
     "scalar": ["-DFASTOR_DONT_VECTORISE"],
@@ -216,9 +216,18 @@ def build_and_run(jobs, workdir, timeout=1800):
 # findings, evidence, verdicts
 def load_findings():
     p = os.path.join(VERIF, "known_findings.json")
-    if not os.path.exists(p):
-        return {"known": [], "fixed": []}
-    return json.load(open(p))
+    res = {"known": [], "fixed": []}
+    if os.path.exists(p):
+        obj = json.load(open(p))
+        res["known"] += obj.get("known", []); res["fixed"] += obj.get("fixed", [])
+    # per-property fragments (same format), committed under known_findings.d/
+    d = os.path.join(VERIF, "known_findings.d")
+    if os.path.isdir(d):
+        for f in sorted(os.listdir(d)):
+            if f.endswith(".json"):
+                obj = json.load(open(os.path.join(d, f)))
+                res["known"] += obj.get("known", []); res["fixed"] += obj.get("fixed", [])
+    return res
 
 
 class Verdict:
